@@ -37,6 +37,7 @@ type Scn struct {
 	Kind   string `json:"kind"` // plain | rich | hard
 	Gen    string `json:"gen"`  // generator tag
 	Text   []GD   `json:"text"`
+	Rep    []int  `json:"rep,omitempty"` // giant texts: Text[i] stands for Rep[i] consecutive copies (scanners only, run-length encoded trace)
 	Cut    []int  `json:"cut,omitempty"` // rich/hard: extra segment boundaries before these grapheme indices
 	Widths []int  `json:"widths"`
 }
@@ -205,6 +206,9 @@ func segments(sc *Scn) []vaxis.Segment {
 // Run executes one scenario. A watchdog turns a scanner or Draw that does not
 // return into a "hang" observation (the stuck goroutine is abandoned).
 func Run(c *Ctx, sc *Scn) (evs []trace.Ev, note string) {
+	if sc.Rep != nil {
+		return runGiant(c, sc)
+	}
 	var sb strings.Builder
 	for _, g := range sc.Text {
 		sb.WriteString(g.S)
@@ -221,7 +225,7 @@ func Run(c *Ctx, sc *Scn) (evs []trace.Ev, note string) {
 	}
 	if !stable {
 		c.Unstable.Add(1)
-		return []trace.Ev{{"ev": "reset", "kind": sc.Kind, "inp": [][]int{}, "carriers": [][]int{}}}, "unstable segmentation: skipped"
+		return []trace.Ev{{"ev": "reset", "kind": sc.Kind, "inp": [][]int{}, "rinp": [][]int{}, "carriers": [][]int{}}}, "unstable segmentation: skipped"
 	}
 	inp := [][]int{}
 	for i, f := range facts {
@@ -243,7 +247,7 @@ func Run(c *Ctx, sc *Scn) (evs []trace.Ev, note string) {
 			carriers = append(carriers, []int{c.gid(f.G), c.gid(core)})
 		}
 	}
-	evs = append(evs, trace.Ev{"ev": "reset", "kind": sc.Kind, "inp": inp, "carriers": carriers})
+	evs = append(evs, trace.Ev{"ev": "reset", "kind": sc.Kind, "inp": inp, "rinp": [][]int{}, "carriers": carriers})
 	bound := len(facts) + 2
 	total := 0
 	for _, f := range facts {
@@ -361,6 +365,180 @@ func Run(c *Ctx, sc *Scn) (evs []trace.Ev, note string) {
 	return evs, note
 }
 
+// ---- giant texts -------------------------------------------------------------
+
+// MaxGiantLines bounds the lines of a giant text the trace spec is asked to judge.
+const MaxGiantLines = 200
+
+// pack run-length encodes a sequence of tuples: equal neighbours become one tuple with the count appended.
+func pack(ts [][]int) [][]int {
+	out := [][]int{}
+	for _, t := range ts {
+		if n := len(out); n > 0 {
+			last := out[n-1]
+			same := true
+			for i := range t {
+				if last[i] != t[i] {
+					same = false
+					break
+				}
+			}
+			if same {
+				last[len(t)]++
+				continue
+			}
+		}
+		out = append(out, append(append([]int(nil), t...), 1))
+	}
+	return out
+}
+
+// runGiant executes a scenario whose text is given as runs (Text[i] repeated Rep[i] times) and is
+// too long for one trace record per grapheme: the facts of the text and the emitted lines are
+// computed grapheme by grapheme as for every other text and then run-length encoded (events
+// reset.rinp and rscan, judged by WrapRelRL). Only the scanners are run, nothing is drawn.
+func runGiant(c *Ctx, sc *Scn) (evs []trace.Ev, note string) {
+	skip := func(why string) ([]trace.Ev, string) {
+		c.Unstable.Add(1)
+		return []trace.Ev{{"ev": "reset", "kind": sc.Kind, "inp": [][]int{}, "rinp": [][]int{}, "carriers": [][]int{}}}, why
+	}
+	if len(sc.Rep) != len(sc.Text) || sc.Kind == "hard" {
+		return skip("malformed giant scenario: skipped")
+	}
+	var sb strings.Builder
+	var want []int // index into sc.Text of every intended grapheme
+	for i, g := range sc.Text {
+		sb.WriteString(strings.Repeat(g.S, sc.Rep[i]))
+		for k := 0; k < sc.Rep[i]; k++ {
+			want = append(want, i)
+		}
+	}
+	str := sb.String()
+	facts := Facts(str)
+	if len(facts) != len(want) {
+		return skip("unstable segmentation: skipped")
+	}
+	flat := make([][]int, len(facts))
+	var cells []vaxis.Cell
+	for i, f := range facts {
+		g := sc.Text[want[i]]
+		if f.G != g.S {
+			return skip("unstable segmentation: skipped")
+		}
+		st := g.St
+		if sc.Kind == "plain" {
+			st = 1
+		}
+		flat[i] = []int{c.gid(f.G), f.W, b2i(f.Ws), b2i(f.Nl), b2i(f.Lt), b2i(f.Gl), st}
+		if sc.Kind == "rich" {
+			cells = append(cells, vaxis.Cell{Character: vaxis.Character{Grapheme: f.G, Width: f.W}, Style: Style(g.St)})
+		}
+	}
+	evs = append(evs, trace.Ev{"ev": "reset", "kind": sc.Kind, "inp": [][]int{}, "rinp": pack(flat), "carriers": [][]int{}})
+	bound := len(facts) + 2
+	for _, w := range sc.Widths {
+		w := w
+		done := make(chan []trace.Ev, 1)
+		go func() {
+			lines := [][][]int{}
+			fin := false
+			pan := guarded(func() {
+				switch sc.Kind {
+				case "plain":
+					s := text.NewSoftwrapScanner(str, uint16(w))
+					ctx := dctx(w, math.MaxUint16)
+					for n := 0; n <= bound && len(lines) <= MaxGiantLines; n++ {
+						if !s.Scan(ctx) {
+							fin = true
+							break
+						}
+						lines = append(lines, pack(c.lineOfString(s.Text(), 1)))
+					}
+				case "rich":
+					s := richtext.NewSoftwrapScanner(append([]vaxis.Cell(nil), cells...), uint16(w))
+					for n := 0; n <= bound && len(lines) <= MaxGiantLines; n++ {
+						if !s.Scan() {
+							fin = true
+							break
+						}
+						lines = append(lines, pack(c.lineOfCells(s.Text())))
+					}
+				}
+			})
+			if pan != "" {
+				done <- []trace.Ev{{"ev": "panic", "in": "scan", "w": w, "msg": ascii(pan)}}
+				return
+			}
+			if len(lines) > MaxGiantLines {
+				// more lines than the trace spec is asked to judge: no observation, no verdict
+				done <- nil
+				return
+			}
+			if c.Dump != nil {
+				var ws []int
+				for _, l := range lines {
+					x := 0
+					for _, it := range l {
+						x += it[1] * it[4]
+					}
+					ws = append(ws, x)
+				}
+				c.Dump("%s giant %d graphemes w=%d done=%v line widths=%v\n", sc.Kind, len(facts), w, fin, ws)
+			}
+			done <- []trace.Ev{{"ev": "rscan", "w": w, "done": fin, "lines": lines}}
+		}()
+		select {
+		case out := <-done:
+			if out == nil {
+				note = "giant: more than 200 lines at some width, those widths are not judged"
+			}
+			evs = append(evs, out...)
+		case <-time.After(120 * time.Second):
+			c.Hangs.Add(1)
+			evs = append(evs, trace.Ev{"ev": "hang", "in": "scan", "w": w})
+			return evs, "hang"
+		}
+	}
+	return evs, note
+}
+
+// Giants are the fixed texts of tens of thousands of graphemes: words, runs of spaces and lines
+// wider than 65535 columns, and widths whose sums pass 65535. The widths are large, so that a
+// scanner which re-measures the rest of a word for every line stays fast.
+func Giants() []*Scn {
+	type run struct {
+		s string
+		n int
+	}
+	texts := []struct {
+		runs   []run
+		widths []int
+	}{
+		{[]run{{"x", 1}, {" ", 1}, {"a", 65539}, {" ", 1}, {"y", 1}}, []int{2000, 30000, 65535}},          // a word wider than 65535 columns
+		{[]run{{"a", 30000}, {" ", 1}, {"b", 36000}}, []int{40000, 65535}},                                // two words whose widths add up beyond 65535
+		{[]run{{"世", 32800}}, []int{40001, 65535}},                                                        // breakable everywhere, wider than 65535 altogether
+		{[]run{{"a", 1}, {" ", 65540}, {"b", 1}}, []int{10, 65535}},                                       // a run of spaces wider than 65535
+		{[]run{{"x", 1}, {" ", 1}, {"a", 65539}, {"\n", 1}, {"y", 1}, {"\n", 2}, {"z", 1}}, []int{30000}}, // hard breaks around a giant word
+		{[]run{{"（", 1}, {"a", 40000}, {" ", 1}, {"（", 1}, {"b", 20000}}, []int{20001, 40000}},            // glued prefix before a giant run of letters
+	}
+	var out []*Scn
+	for _, t := range texts {
+		for _, k := range []string{"plain", "rich"} {
+			sc := &Scn{Kind: k, Gen: "giant", Widths: t.widths}
+			for i, r := range t.runs {
+				st := 0
+				if k != "plain" {
+					st = i % 4
+				}
+				sc.Text = append(sc.Text, GD{S: r.s, St: st})
+				sc.Rep = append(sc.Rep, r.n)
+			}
+			out = append(out, sc)
+		}
+	}
+	return out
+}
+
 func ascii(s string) string {
 	var b strings.Builder
 	for _, r := range s {
@@ -406,6 +584,10 @@ func classGrapheme(cls byte, i int) string {
 		return "！"
 	case 'A': // an isolated accent: a visible cluster that begins with a space
 		return " \u0301"
+	case 'O': // wide opening punctuation: no break opportunity after it (UAX #14 LB14)
+		return "（"
+	case 'G': // no-break space: white space with no break opportunity next to it (LB12, LB12a)
+		return "\u00a0"
 	}
 	panic("class")
 }
@@ -468,7 +650,10 @@ func Random(rng *rand.Rand, kind string) *Scn {
 	var cls []byte
 	for len(cls) < n {
 		switch x := rng.Intn(20); {
-		case x < 8: // a word
+		case x < 8: // a word, now and then with a glued prefix (opening punctuation, no-break space)
+			if y := rng.Intn(12); y < 2 {
+				cls = append(cls, "OG"[y])
+			}
 			for k := 1 + rng.Intn(9); k > 0; k-- {
 				if rng.Intn(6) == 0 {
 					cls = append(cls, 'M')
@@ -493,7 +678,7 @@ func Random(rng *rand.Rand, kind string) *Scn {
 				cls = append(cls, "WWWCPE"[rng.Intn(6)])
 			}
 		case x < 19:
-			cls = append(cls, "CPEA"[rng.Intn(4)])
+			cls = append(cls, "CPEAOG"[rng.Intn(6)])
 		default:
 			cls = append(cls, 'R')
 		}
@@ -538,6 +723,9 @@ func Corners() []*Scn {
 		"   ", " a", "a ", "  ab  cd  ",
 		"字👍🏽界", "g字👍🏽界。ab", "🇩🇪🇩🇪🇩🇪 x", // clusters that a stale segmentation state tears apart
 		"The quick brown fox jumps over the lazy dog", "supercalifragilisticexpialidocious is a word",
+		"（ab", "xy \u00a0ab", "（（ab", "a（bc）d", "ab\u00a0cd", "\u00a0ab\u00a0cd", "« ab »", "(ab) [cd]", "（abc（de", // glued prefixes: a cut of the segment must not split the letters
+		"\u0301ab", "a\n\u0301b", "\u0301", "a\u200bb", // clusters of width 0 at the start of a line or on their own
+		"世\nb", "世 b", "世\n\nb", "a世\nb", // a grapheme wider than the line before a break
 	}
 	var out []*Scn
 	for _, t := range texts {
